@@ -882,6 +882,11 @@ func (fr *Frame) applyContract(c *Contract, callee *ssa.Function, args []Val, re
 	for k, v := range lets {
 		envPost.vars[k] = v
 	}
+	if c.Flags["abstract"] && c.Flags["pure"] {
+		// abstract pure function: callers only learn that the result is a function of the arguments
+		// (its meaning is proved against the body, and is not needed/assumed at call sites)
+		return res
+	}
 	for _, en := range c.Ensures {
 		g := fc.evalBool(envPost, en.E)
 		fc.B.Assert(implies(reach, g))
